@@ -139,7 +139,7 @@ def check(tier, seed):
         "evaluations": totals["runs"],
         "distinct_nontrivial": totals["distinct_nontrivial"],
         "rule": ("A case is one GC schedule (trace) over one generated bridge and one JS ABI: operations construct / call method / drop holder reference / GC point / run the k-th pending finalizer / use / "
-                 "arm memory.grow / arm export-throw over up to 6 held wrappers. Bridges are generated from xoshiro128**(VERIF_SEED, bridge) inside the grammar C04 quantifies over (opaques with 0-2 lifetimes and optional "
+                 "arm memory.grow / arm export-throw over up to 6 held wrappers. Per bridge, one directed schedule per method / Result arm / kept struct field (distinct objects for all inputs, all inputs dropped, GC, all finalizers, use) precedes the random ones; a fixed catalogue of delicate signatures and 'negative' bridges (a definition-implied bound left implicit; only run if the tool accepts them) run next to the generated ones. Bridges are generated from xoshiro128**(VERIF_SEED, bridge) inside the grammar C04 quantifies over (opaques with 0-2 lifetimes and optional "
                  "definition bounds, borrowing structs, up to 4 method lifetimes with random declared bounds, anonymous input lifetimes, optional opaque parameters, Box/&/Option/Result returns); the real tool generates the JS. "
                  "distinct = FNV-64 of the op list per (bridge, ABI); non-trivial = at least one GC point at which something a held value may borrow from was no longer held by the program (the configuration S1 exists for)."),
         "samples": samples,
@@ -151,7 +151,7 @@ def check(tier, seed):
         "logical_steps_simulated": counters.get("ops_executed", 0), "ops_skipped_by_executor": counters.get("ops_skipped", 0),
         "runs_per_hour": int(totals["runs"] / max(wall, 1e-9) * 3600),
         "model_validation": model_validation,
-        "oracles": ["S1 no premature free (checked at use): every transitive lender of a still-held value is undestroyed / unfreed with its tag bytes intact",
+        "oracles": ["S1 no premature free (checked at use): every transitive lender of a still-held value is undestroyed / unfreed with its tag bytes intact, and the object that owns a lender buffer (arena / buffer object, learnt by wrapping the generated runtime's alloc) has not been collected",
                     "S2 no dangling argument passed to an export", "S3 exactly-once at the wasm boundary; a borrowed return that lives inside a lender is never destroyed by its wrapper"],
         "components": {"real": ["diplomat-tool (parser, lowering, borrow analysis, JS backend) from the tree under test", "generated .mjs + diplomat-runtime.mjs", "V8's collector (reachability) and WebAssembly.Memory (buffer detachment)"],
                        "stub": ["the wasm module (model wasm playing the most-borrowing body each signature admits; no wasm32 target is installed)", "FinalizationRegistry scheduling (simulated: the trace decides which dead registration is finalized when)"]},
